@@ -10,10 +10,10 @@ var debugExplore = os.Getenv("VERIF_DEBUG_EXPLORE") != ""
 
 // Cache is the visited-state table of one exploration.
 type Cache struct {
-	m map[H]uint8
+	m hset
 }
 
-func NewCache() *Cache { return &Cache{m: map[H]uint8{}} }
+func NewCache() *Cache { return &Cache{} }
 
 // visit records arrival at state k having spent `spent` deviations; it returns false when the
 // state was already reached with no more deviations spent (everything reachable from here
@@ -25,14 +25,14 @@ func (c *Cache) visit(k H, spent int, unbounded bool) bool {
 	if spent > 250 {
 		spent = 250
 	}
-	if s, ok := c.m[k]; ok && int(s) <= spent {
+	if s, ok := c.m.lookup(uint64(k)); ok && int(s) <= spent {
 		return false
 	}
-	c.m[k] = uint8(spent)
+	c.m.store(uint64(k), uint8(spent))
 	return true
 }
 
-func (c *Cache) Len() int { return len(c.m) }
+func (c *Cache) Len() int { return c.m.n }
 
 // Stats summarises one exploration.
 type Stats struct {
